@@ -185,7 +185,12 @@ def round_robin(counts):
 def examine_threads(case):
     old = sys.getswitchinterval()
     jobs = case["jobs"]
-    expected = [ev.find(j["ast"], case["docs"][j["doc"]]) for j in jobs]
+    if case.get("literals"):
+        return examine_literal_threads(case)
+    ndocs = len(case["docs"])
+    # expected[k][d]: job k applied to document d (threads spread the shared compiled queries over all documents)
+    expected_all = [[ev.find(j["ast"], case["docs"][d]) for d in range(ndocs)] for j in jobs]
+    expected = [expected_all[k][j["doc"]] for k, j in enumerate(jobs)]
     env = get_env("threads-shared")
     errors = []
     barrier = threading.Barrier(8)
@@ -199,13 +204,18 @@ def examine_threads(case):
             for rep in range(case.get("reps", 3)):
                 for k in range(tid % len(jobs), len(jobs) * 2, 1):
                     j = jobs[k % len(jobs)]
-                    cq = shared.get(k % len(jobs)) or env.compile(j["q"])
-                    it = iter(cq.finditer(case["docs"][j["doc"]]))
+                    cq = shared.get(k % len(jobs))
+                    d = j["doc"]
+                    if cq is None:
+                        cq = env.compile(j["q"])
+                    else:
+                        d = (tid + rep) % ndocs   # the same compiled query on different documents at the same time
+                    it = iter(cq.finditer(case["docs"][d]))
                     got = []
                     for node in it:
                         got.append((tuple(node.location), node.value))
-                    if not ev.same_nodelist(expected[k % len(jobs)], got):
-                        errors.append((tid, j["q"], ev.show_nodes(expected[k % len(jobs)]), ev.show_nodes(got)))
+                    if not ev.same_nodelist(expected_all[k % len(jobs)][d], got):
+                        errors.append((tid, j["q"], ev.show_nodes(expected_all[k % len(jobs)][d]), ev.show_nodes(got)))
                         return
         except Exception as e:  # noqa: BLE001
             errors.append((tid, "exception", type(e).__name__, str(e)[:200]))
@@ -224,6 +234,49 @@ def examine_threads(case):
         return fail("threads:" + ("exception:" + str(e[2]) if e[1] == "exception" else "wrong-result"),
                     f"thread {e[0]}: concurrent compile+evaluate of {e[1]!r} on a shared environment differs from the sequential result",
                     e[2], e[3])
+    return None
+
+
+def examine_literal_threads(case):
+    """Threads compile (on one shared environment) queries whose string literals use both quote styles and many
+    escapes; every compile must succeed and decode exactly as it does sequentially."""
+    old = sys.getswitchinterval()
+    env = get_env("threads-shared")
+    lits = case["literals"]          # [(literal text, decoded)]
+    errors = []
+    barrier = threading.Barrier(8)
+
+    def worker(tid):
+        try:
+            barrier.wait()
+            for rep in range(case.get("reps", 3)):
+                for k in range(len(lits)):
+                    text, decoded = lits[(k + tid) % len(lits)]
+                    try:
+                        cq = env.compile("$[" + text + "]")
+                    except Exception as e:  # noqa: BLE001
+                        errors.append((tid, text[:60], "compiles", f"{type(e).__name__}: {e}"[:160]))
+                        return
+                    got = [tuple(n.location) for n in cq.find({decoded: 1, "other": 2})]
+                    if got != [(decoded,)]:
+                        errors.append((tid, text[:60], [decoded], repr(got)[:160]))
+                        return
+        except Exception as e:  # noqa: BLE001
+            errors.append((tid, "exception", type(e).__name__, str(e)[:200]))
+
+    sys.setswitchinterval(1e-6)
+    try:
+        ts = [threading.Thread(target=worker, args=(t,)) for t in range(8)]
+        for t in ts:
+            t.start()
+        for t in ts:
+            t.join()
+    finally:
+        sys.setswitchinterval(old)
+    if errors:
+        e = errors[0]
+        return fail("threads:literal-compile", f"thread {e[0]}: compiling the literal {e[1]!r}... concurrently on a shared environment "
+                    f"gives {e[3]}, sequentially it denotes {e[2]!r}", e[2], e[3])
     return None
 
 
@@ -344,6 +397,25 @@ def run_shard(spec, shard):
             shard.fail(f["bucket"], case, f)
 
     drive(rng(), max(2, spec["threads"] // 2), spec["seed"] + 2, rbody)
+
+    def lbody(r):
+        lits = []
+        for _ in range(6):
+            quote = r.choice("'\"")
+            n = r.choice([3, 20, 200, 1500])
+            parts, dec = [], []
+            for _ in range(n):
+                c = r.choice(["a", quote, "\\", "\n", "\u00e9", "\U0001F600", "'" if quote == '"' else '"', "/", "b"])
+                parts.append(Q.spell_char(c, quote, r))
+                dec.append(c)
+            lits.append((quote + "".join(parts) + quote, "".join(dec)))
+        case = {"kind": "threads", "jobs": [], "docs": [], "literals": lits, "reps": 2}
+        shard.case(key=lits, nontrivial=True, classes={"thread-round", "thread-round:literal-compile"}, sample=None)
+        f = examine(case)
+        if f:
+            shard.fail(f["bucket"], case, f)
+
+    drive(rng(), max(2, spec["threads"] // 3), spec["seed"] + 4, lbody)
 
 
 def minimise(case, failure, tier):
